@@ -264,6 +264,14 @@ Theorem C12_no_side_effects_call : forall (V E : Type) (f : string) (body : list
 Proof. exact no_side_effects_call. Qed.
 Print Assumptions C12_no_side_effects_call.
 
+(* the constructors / classmethods / primitives that promise a new object (Model.fresh_returners: unit_cube, infinite,
+   of_points, of_mesh, union, intersection, span, center, Vec.zeros/random/X/Y/Z/from_complex, cross, rotate_2d) never
+   return a view of an argument, a field of self or an object that outlives the call: what they return is fresh *)
+Theorem C12_constructors_return_fresh : forall (f : string) (body : list ev) (n0 : nat) (env : nat -> list nat) (c : nat),
+  lookup fx_table f = Some body -> str_in f fresh_returners = true -> may_return n0 env body c -> (n0 <= c)%nat.
+Proof. exact constructors_return_fresh. Qed.
+Print Assumptions C12_constructors_return_fresh.
+
 (* ... and so does any sequence of calls *)
 Theorem C12_no_side_effects_history : forall (V E : Type) (s : st V E) (h : list (string * (nat -> list nat) * nat)) (s' : st V E),
   hist V E fx_table s h s' ->
